@@ -27,6 +27,18 @@ Theorem C01_kkt_exact : forall n A b z y, rows_ok n A -> length b = length A -> 
   (sqn ROps (vsub ROps (mv ROps A z) b) <= sqn ROps (vsub ROps (mv ROps A y) b))%R.
 Proof. exact kkt_exact. Qed.
 
+(* "up to numerical tolerance", made precise: the assembled matrix A differs from the true one by the error of the fitted tangents, so the
+   true tensions xs leave a residual e = A xs - b.  If the reported vector xh fits the assembled equations at least as well as xs does
+   (what a minimiser over any set containing xs does) then  sigma2 |xh - xs|^2 <= 4 |e|^2  for every lower bound sigma2 of
+   |A d|^2 / |d|^2: the recovery error is at most 2 |e| / sigma_min.  harness/props/c01.py measures e and sigma_min and judges with this bound *)
+Theorem C01_perturbation_bound : forall n (A : list (list R)) (b xh xs : list R) (sigma2 : R),
+  rows_ok n A -> length b = length A -> length xh = n -> length xs = n ->
+  (sqn ROps (vsub ROps (mv ROps A xh) b) <= sqn ROps (vsub ROps (mv ROps A xs) b))%R ->
+  (forall d, length d = n -> (sigma2 * sqn ROps d <= sqn ROps (mv ROps A d))%R) ->
+  (sigma2 * sqn ROps (vsub ROps xh xs) <= 4 * sqn ROps (vsub ROps (mv ROps A xs) b))%R.
+Proof. exact perturbation_bound. Qed.
+
 Print Assumptions C01_equilibrium_solves_augmented.
 Print Assumptions C01_zero_residual_minimiser_unique.
 Print Assumptions C01_kkt_exact.
+Print Assumptions C01_perturbation_bound.
